@@ -132,7 +132,11 @@ static void observe_slots(const char* op, int i, int j, const unsigned char* s, 
 }
 
 static Xml::Parser* g_parser = 0;
-static void drop_parser() { delete g_parser; g_parser = 0; }
+// the Element every round trip parses into: ONE per execution, still holding the previous document when the next one is
+// parsed (parse replaces the element, it does not append to it); every third round trip hands the text over inside that
+// very element (String overload: the text must stay alive while the element is being replaced)
+static Xml::Element* g_got = 0; static long g_rtCount = 0;
+static void drop_parser() { delete g_parser; g_parser = 0; delete g_got; g_got = 0; g_rtCount = 0; }
 
 void drv_apply(const char* op)
 {
@@ -159,8 +163,11 @@ void drv_apply(const char* op)
     String text = mode ? Xml::toString(orig) : orig.toString();
     usize tl = text.length();
     char* copy = (char*)malloc(tl + 1); memcpy(copy, (const char*)text, tl); copy[tl] = 0;
-    Xml::Element got;
-    bool ok = Xml::parse((const char*)copy, got);
+    if(!g_got) g_got = new Xml::Element;
+    Xml::Element& got = *g_got;
+    bool ok;
+    if(++g_rtCount % 3 == 0) { got.type = String(copy, tl); ok = Xml::parse(got.type, got); }
+    else ok = Xml::parse((const char*)copy, got);
     j_begin("rt"); j_int("mode", mode); j_key("orig"); put_tree(nd); j_bytes("text", (const unsigned char*)copy, (long)tl); j_bool("ok", ok);
     j_key("got"); if(ok) put_element(got); else fputs("{\"t\":\"none\"}", g_out);
     j_end();
